@@ -125,6 +125,14 @@ CHECKS = [
              "concatenated flat array for ALL leaf values; smap and lmap equal jax.vmap and slice-wise application for an "
              "ARBITRARY (uninterpreted) mapped function with 1-2 inputs and every in_axes/out_axes in {None,0,1} (batch 3).",
      "design_ref": "DESIGN.md 4/C33"},
+    {"property_id": "C32", "engine": "B", "category": "other", "technique": TECH_B + "; the potential gradient is an uninterpreted JAX primitive; jax.random with concrete keys is run by JAX and the uniform draw recomputed from the key",
+     "note": NOTE_B + " Partial: leapfrog reversibility/volume preservation, the Metropolis rule and the NUTS merge rule; NUTS tree building as a whole and the invariance/moments of long chains are NOT claimed.",
+     "text": "Bounded symbolic verification on the compiler IR: leapfrog_step with an ARBITRARY potential gradient is time-reversible "
+             "(flip o Phi^k o flip o Phi^k = id, k <= 3, dims <= 2) and, for gradient fields with symmetric Jacobian, volume preserving "
+             "and symplectic (jax.jacfwd through the real step); generate_hmc_acc_rej accepts iff u < min(1, exp(H - H')) and returns "
+             "the momentum-flipped proposal or the initial state; merge_trees selects the new sub-tree's candidate with probability "
+             "w_new/(w_new+w_cur) (or min(1, w_new/w_cur) when biased), keeps the right end points and adds the weights.",
+     "design_ref": "DESIGN.md 4/C32"},
 ]
 
 ALL = [f"C{i:02d}" for i in range(1, 37)]
